@@ -31,7 +31,7 @@ use crate::drivers::CopyDriver;
 use crate::errors::{Result, XcpError};
 use crate::feedback::{StatusUpdate, StatusUpdater};
 use crate::operations::{CopyHandle, Operation, tree_walker};
-use crate::paths::lexists;
+use crate::paths::{lexists, same_entry};
 
 // ********************************************************************** //
 
@@ -124,6 +124,11 @@ fn copy_worker(work: cbc::Receiver<Operation>, config: &Arc<Config>, updates: Ar
                 if lexists(&to)? {
                     if config.no_clobber {
                         return Err(XcpError::DestinationExists("Destination file exists and --no-clobber is set.", to).into());
+                    }
+                    // The destination may be the source itself under
+                    // another spelling; removing it would destroy it.
+                    if same_entry(&from, &to)? {
+                        return Err(XcpError::DestinationExists("Source and destination are the same file.", to).into());
                     }
                     remove_file(&to)?;
                 }
